@@ -4,6 +4,7 @@ package main
 
 import (
 	"fmt"
+	"go/ast"
 	"go/constant"
 	"go/token"
 	"go/types"
@@ -71,6 +72,20 @@ type frame struct {
 	deferLimit int
 	defersRun bool
 	recoverCalled bool
+	debugVars map[string]debugVar
+}
+
+type debugVar struct {
+	val  Val
+	addr bool
+}
+
+func isConstLike(v ssa.Value) bool {
+	switch v.(type) {
+	case *ssa.Const, *ssa.Global, *ssa.Function:
+		return true
+	}
+	return false
 }
 
 func (fr *frame) parentPanic() *Exit { return fr.panicCtx }
@@ -756,6 +771,17 @@ func (fr *frame) instr(ins ssa.Instruction, back map[[2]int]bool) {
 	vc := fr.vc
 	switch x := ins.(type) {
 	case *ssa.DebugRef:
+		if id, ok := x.Expr.(*ast.Ident); ok && id.Name != "_" {
+			if fr.debugVars == nil {
+				fr.debugVars = map[string]debugVar{}
+			}
+			if v, ok := fr.vals[x.X]; ok || isConstLike(x.X) {
+				if !ok {
+					v = fr.val(x.X)
+				}
+				fr.debugVars[id.Name] = debugVar{val: v, addr: x.IsAddr}
+			}
+		}
 	case *ssa.Alloc:
 		fr.setValRaw(x, fr.allocVal(x.Type().(*types.Pointer).Elem(), fr.pfx+x.Name()))
 	case *ssa.Store:
